@@ -641,6 +641,47 @@ def p_override(b):
         uses[k]()
 
 
+def duck_classes(cb):
+    """Two unrelated classes with a method of the same name (only a duck-typed use ties the two definitions together)."""
+    cb.prog.features.update(["classes", "duck-typed-methods"])
+    one, two = "K" + cb.fresh("Circle").replace("_", ""), "K" + cb.fresh("Box").replace("_", "")
+    meth = cb.fresh("area")
+    for cn, ret in ((one, LIT["int"][0]), (two, LIT["int"][1])):
+        ci = ClassInfo(cn, cb.mod.name)
+        ci.bases, ci.init = [], None
+        ci.methods[meth] = ("method", [], ("int",))
+        cb.emit("class %s:" % cn, "    def %s(self):" % meth, "        return %s" % ret)
+        cb.prog.classes[cn] = ci
+    cb.prog.focus = getattr(cb.prog, "focus", []) + [meth]
+    return one, two, meth
+
+
+def duck_uses(b, one, two, meth):
+    """k uses through the first class only, some through the second only, and the use that may be either."""
+    first, second = (one, two) if b.draw(st.booleans()) else (two, one)
+    x, y = b.fresh("duck"), b.fresh("duck")
+    b.emit("%s = %s()" % (x, b.qual(first)))
+    for _ in range(b.draw(st.integers(0, 3))):
+        b.bind("%s.%s()" % (x, meth), ("int",), True, ["method-call", "duck"])
+    b.emit("%s = %s()" % (y, b.qual(second)))
+    for _ in range(b.draw(st.integers(0, 2))):
+        b.bind("%s.%s()" % (y, meth), ("int",), True, ["method-call", "duck"])
+    link = b.fresh("un")
+    if b.draw(st.booleans()):
+        b.emit("%s = %s if len('ab') == 2 else %s" % (link, x, y))
+        b.bind("%s.%s()" % (link, meth), ("int",), False, ["method-call", "duck"])
+    else:
+        acc = b.fresh("acc")
+        b.emit("%s = []" % acc, "for %s in [%s, %s]:" % (link, x, y), "    %s.append(%s.%s())" % (acc, link, meth))
+        b.bind("len(%s)" % acc, ("int",), True, ["duck"])
+    for _ in range(b.draw(st.integers(0, 1))):
+        b.bind("%s.%s()" % (x, meth), ("int",), True, ["method-call", "duck"])
+
+
+def p_duck(b):
+    duck_uses(b, *duck_classes(b))
+
+
 def p_use_class(b, ci=None):
     ci = ci or b.some_class()
     if ci is None:
@@ -838,7 +879,7 @@ def p_flow(b):
 
 
 PRODUCTIONS = [p_literals, p_arith, p_unpack, p_function, p_function, p_function, p_lambda, p_class, p_class, p_use_class,
-               p_decorator, p_generator, p_comprehension, p_flow, p_flow, p_multi_inherit, p_override]
+               p_decorator, p_generator, p_comprehension, p_flow, p_flow, p_multi_inherit, p_override, p_duck]
 
 
 @st.composite
@@ -858,6 +899,7 @@ def programs(draw, max_blocks=9, multi=None):
         hb.imports = {}
         for _ in range(draw(st.integers(1, 3))):
             p_class(hb)
+        duck = duck_classes(hb) if draw(st.integers(0, 3)) == 0 else None
         hf = hb.fresh("hfun")
         helper.lines += ["def %s(first):" % hf, "    return first"]
         helper.observe = []
@@ -898,6 +940,8 @@ def programs(draw, max_blocks=9, multi=None):
         for c in hclasses:
             if draw(st.booleans()):
                 p_use_class(b, c)
+        if duck:
+            duck_uses(b, *duck)
     for _ in range(draw(st.integers(3, max_blocks))):
         draw(st.sampled_from(PRODUCTIONS))(b)
     return prog
